@@ -51,7 +51,7 @@ BUILDERS = ["disjunctive", "agent_task", "with_jobs", "complete"]
 
 def gen_cases(ctx):
     rng = ctx.rng
-    for i in range(ctx.scale(300, 6000)):
+    for i in range(ctx.scale(300, 36000)):
         inst = gen.gen_instance(rng, None, max_jobs=rng.choice([2, 3, 4]), max_machines=rng.choice([2, 3, 4]))
         yield {"kind": "single", "instance": inst, "builder": BUILDERS[i % 4],
                "features": rng.sample(FEATURES, rng.randint(1, 7)),
@@ -61,7 +61,7 @@ def gen_cases(ctx):
                "filter": rng.choice([None, "default", {"names": ["dominated_operations"], "form": "function"},
                                      {"names": ["non_idle_machines"], "form": "function"}]),
                "padding": rng.random() < 0.85, "seed": rng.randrange(2**31)}
-    for i in range(ctx.scale(200, 4000)):
+    for i in range(ctx.scale(200, 24000)):
         style = ["classic", "classic", "recirc", "flexible"][i % 4]
         lo_j = rng.randint(2, 3); lo_m = rng.randint(2, 3)
         gp = {"num_jobs": [lo_j, lo_j + rng.randint(0, 2)], "num_machines": [lo_m, lo_m + rng.randint(0, 2)],
